@@ -444,6 +444,7 @@ def run(ctx):
     if ctx.prop == "C09" and not getattr(ctx, "_sharing", False):
         from .common import share
         share(ctx, "C10", ("R10.4",), "R09.7", "hand-over obligations shared with C10", 8)
+        share(ctx, "C05", ("R05.1",), "R09.7", "ownership obligations shared with C05 (the statement object owns its record until it is handed to the sink: an operator<< that returns a reference to a temporary emits early and loses the rest)", 6)
     ctx.trust("std::mutex + scoped lock objects give mutual exclusion for the lifetime of the lock object; function-local statics are "
               "initialised once, thread-safely (Appendix D.4)")
 
